@@ -50,6 +50,18 @@ def _list_lemma(p):
             b.append(2)
             b[0] = 1 if x > 0 else 0
             return (b[0] == 1) == (x > 0)
+        if which == 'extend_iter':
+            # growth idioms of table-like code: extend with a repeated array / bytes / a generator / a range, then indexed writes
+            q = array('q')
+            q.extend(array('q', [0]) * 3)
+            b = bytearray()
+            b.extend(bytes([2]) * 3)
+            free = []
+            free.extend(range(5, 2, -1))
+            free.extend(i for i in (y, z))
+            q[1] = x
+            b[2] = 1 if x > 0 else 0
+            return q[1] == x and q[0] == 0 and len(q) == 3 and (b[2] == 1) == (x > 0) and b[0] == 2 and free[0] == 5 and free[4] == z and len(free) == 5 and free.pop() == z
         if which == 'false_list':
             return (l + [z])[1:] == l
         raise ValueError(which)
@@ -65,7 +77,7 @@ def obligations(tier, seed):
         obs.append(Ob(PROP, 'str_lemma', dict(lemma=l), budget=60))
     for l in ('false_concat', 'false_split'):
         obs.append(Ob(PROP, 'str_lemma', dict(lemma=l), budget=60, expect='refute'))
-    for l in ('list_view', 'array_q', 'array_B'):
+    for l in ('list_view', 'array_q', 'array_B', 'extend_iter'):
         obs.append(Ob(PROP, 'list_lemma', dict(lemma=l), budget=60))
     obs.append(Ob(PROP, 'list_lemma', dict(lemma='false_list'), budget=60, expect='refute'))
     return obs
